@@ -462,11 +462,29 @@ class _SymExec(object):
                 for r in self.block(b, dict(env)):
                     yield r
         elif isinstance(st, (ast.For, ast.AsyncFor, ast.While)):
-            e2 = self._forget(env, self._bound_in(st))
-            e2['$loops'] = env.get('$loops', ()) + ((st, dict(e2)),)
-            if any(isinstance(x, ast.Return) for x in ast.walk(st)):
-                yield ('return', ('?', 'return inside a loop'), e2)
-            yield ('fall', None, e2)
+            # the body is not interpreted: a name it binds is unknown afterwards -- unless every binding of it in the
+            # loop is ``name = '<literal>'``: then it holds its old value or one of those literals (one path each)
+            bound = self._bound_in(st)
+            cands = {}
+            for n in sorted(bound):
+                binders = [x for x in ast.walk(st) if n in self._bound_in(x) and isinstance(x, ast.stmt) and
+                           not isinstance(x, (ast.If, ast.For, ast.AsyncFor, ast.While, ast.Try, ast.With, ast.AsyncWith))]
+                if n in env and binders and all(isinstance(x, ast.Assign) and len(x.targets) == 1 and isinstance(x.targets[0], ast.Name) and
+                                                isinstance(x.value, ast.Constant) and isinstance(x.value.value, str) for x in binders) and \
+                        not (isinstance(st, (ast.For, ast.AsyncFor)) and n in names_stored(st.target)):
+                    vals = [env[n]]
+                    for x in binders:
+                        if _lit(x.value.value) not in vals:
+                            vals.append(_lit(x.value.value))
+                    cands[n] = vals
+            envs = [self._forget(env, bound - set(cands))]
+            for n, vals in sorted(cands.items()):
+                envs = [dict(e, **{n: v}) for e in envs for v in vals]
+            for e2 in envs[:64]:
+                e2['$loops'] = env.get('$loops', ()) + ((st, dict(e2)),)
+                if any(isinstance(x, ast.Return) for x in ast.walk(st)):
+                    yield ('return', ('?', 'return inside a loop'), e2)
+                yield ('fall', None, e2)
         elif isinstance(st, ast.Try):
             if any(isinstance(x, ast.Return) for s in st.finalbody for x in ast.walk(s)):
                 raise AnalysisError('%s: return inside finally is not followed' % self.fi.qualname)
@@ -516,9 +534,8 @@ def check_match_path_no_raise(rep, rule):
     mp = route.func('BoundRoute.match_path')
     conv_vars = set()
     for n in ast.walk(mp.node):
-        if isinstance(n, ast.For) and 'converters' in norm(n.iter):
-            conv_vars |= set(x.id for x in ast.walk(n.target) if isinstance(x, ast.Name))
-        if isinstance(n, ast.comprehension) and 'converters' in norm(n.iter):
+        # what is iterated, seen through single-assignment temporaries (pairs = self.converters.items())
+        if isinstance(n, (ast.For, ast.comprehension)) and 'converters' in norm(_inline(mp, n.iter)):
             conv_vars |= set(x.id for x in ast.walk(n.target) if isinstance(x, ast.Name))
     conv_calls = [c for c in ast.walk(mp.node) if isinstance(c, ast.Call) and
                   ((isinstance(c.func, ast.Name) and c.func.id in conv_vars) or
